@@ -1,1 +1,54 @@
+(* Correspondence evaluator of C01: Run/RunEng.v, extended by operations with a FAILING STORAGE
+   READ.  A step is an ordinary step of Engine/Seq.v or [RRead n c]: the operation c whose n-th
+   read (0-based, in execution order) returns an error — evaluated as [rfail n] of the programs
+   of Engine/OpsR.v under the same interpreter, cluster handler and fault plan.  The harness
+   injected the same read fault into the real storage driver (eng.Op.RFail); outcome class,
+   ledger, cluster objects and trace of effective writes are compared as for every other step,
+   for the faulted operation and for everything after it. *)
+From Coq Require Import List String Bool Arith ZArith.
+From Helm Require Import Common.Assoc Engine.Types Engine.Eff Engine.Ops Engine.Cluster Engine.Seq Engine.OpsR.
 From Helm Require Export Run.RunEng.
+Import ListNotations.
+
+Inductive rstep := RS (h : hstep) | RRead (n : nat) (c : opcase).
+
+Record rcase := mkRCase { rc_init : list (string * fields); rc_steps : list rstep; rc_obs : list step_obs }.
+
+Definition run_store_opR (n : nat) (c : opcase) (w : world) : world * outcome * list tev :=
+  let k0 := mkK (w_objs w) (cf_k (oc_cf c)) (cf_h (oc_cf c)) (cf_wait (oc_cf c)) in
+  let '(s, out) := run kstate (kube_handle rn ns) dead_resp (oc_sf c)
+                       (rfail n (op_progR rn ns (oc_op c))) (mkR (w_led w) k0 0 0 false []) in
+  (mkW (led s) (objs (ks s)), (if dead s then OCrashed else out), tr s).
+
+Fixpoint run_historyR (h : list rstep) (w : world) : list (world * outcome * list tev) :=
+  match h with
+  | [] => []
+  | RS (HOp c) :: t => let '(w', out, tr) := run_store_op rn ns c w in (w', out, tr) :: run_historyR t w'
+  | RS (HEdit e) :: t => let w' := apply_edit w e in (w', OOk, []) :: run_historyR t w'
+  | RRead n c :: t => let '(w', out, tr) := run_store_opR n c w in (w', out, tr) :: run_historyR t w'
+  end.
+
+Definition rcase_ok (c : rcase) : bool :=
+  steps_agree (run_historyR (rc_steps c) (mkW [] (rc_init c))) (rc_obs c).
+
+Fixpoint rmismatches_from (i : nat) (cs : list rcase) : list nat :=
+  match cs with
+  | [] => []
+  | c :: t => if rcase_ok c then rmismatches_from (S i) t else i :: rmismatches_from (S i) t
+  end.
+
+(* the names the generated cases_k.v files use *)
+Definition case := rcase.
+Definition mismatches := rmismatches_from 0.
+
+(* without read-faulted steps this is Run/RunEng.v's evaluation *)
+Lemma run_historyR_plain h w : run_historyR (map RS h) w = run_history rn ns h w.
+Proof.
+  revert w; induction h as [|[c|e] t IH]; intros w; cbn [map run_historyR run_history]; [reflexivity| |].
+  - destruct (run_store_op rn ns c w) as [[w' out] tr]. now rewrite IH.
+  - now rewrite IH.
+Qed.
+
+Definition rmodel_view (c : rcase) :=
+  map (fun m => let '(w, out, t) := m in (out, map row_of (sort_by_rev (w_led w)), w_objs w, t))
+      (run_historyR (rc_steps c) (mkW [] (rc_init c))).
